@@ -1,11 +1,10 @@
-\* the tree under test: the escaping name classes are named deviations
-\* (= the open entries of known/C08.json); TLC must pass
+\* the tree under test: _split refuses unsafe mailbox names; nothing is excused
 SPECIFICATION Spec
 CONSTANTS
   MaxLen = 6
   ExtraNames <- DeepNames
-  RejectSpecialParts = FALSE
-  Deviations <- AllClasses
+  RejectSpecialParts = TRUE
+  Deviations = {}
 INVARIANT TypeOK
 INVARIANT Confined
 INVARIANT AllowedAreZones
